@@ -1265,6 +1265,10 @@ class ProcessPoolExecutor(Executor):
         with self._processes_management_lock:
             if len(self._processes) != self._max_workers:
                 self._adjust_process_count()
+                # The executor manager thread only watches the sentinels of
+                # the workers it knew when it last woke up: wake it up so
+                # that the death of a worker spawned here is also noticed.
+                self._executor_manager_thread_wakeup.wakeup()
             self._start_executor_manager_thread()
 
     def submit(self, fn, *args, **kwargs):
